@@ -500,7 +500,7 @@ def run(ctx):
                     execute(ctx, case)
                     ctx.case(("routing_supplied", written, supplied_fmt, form), True, sample=case, cls="supplied format routing")
     # (1) uniform files
-    for _ in range(ctx.budget(700, 80000)):
+    for _ in range(ctx.budget(2000, 80000)):
         D = rng.choice(pts)
         n = rng.choice([1, 2, 3, 5, 11, 12, 25])
         recs = F.uniform_records(rng, D, n, ids="dups", coords=False)
@@ -538,14 +538,14 @@ def run(ctx):
         ctx.case(("after_update", F.text_of(case["items"], D), F.text_of(case["items2"], D2), case["how"]), True,
                  cls="dialect after update fmt=%s" % D["fmt"])
     # single strings incl. sparse shapes
-    for _ in range(ctx.budget(3000, 300000)):
+    for _ in range(ctx.budget(9000, 300000)):
         D = rng.choice(pts)
         attrs = R.attrs(rng, D, nmin=1, nmax=5, single_valued=())
         case = {"kind": "string", "D": D, "attrs": attrs}
         execute(ctx, case)
         ctx.case(("string", D, attrs), len(attrs) >= 2, cls="single attribute string")
     # (3) mixtures
-    for _ in range(ctx.budget(1500, 160000)):
+    for _ in range(ctx.budget(5000, 160000)):
         case = mix_case(rng)
         execute(ctx, case)
         ctx.case(("mix", case["lines"], case["checklines"]), True, sample=case if rng.random() < 0.01 else None,
